@@ -81,3 +81,132 @@ Theorem C07_automorphism_filter_exact : forall ms,
   auto_filter false [] ms = ms.
 Proof. exact automorphism_filter_exact. Qed.
 Print Assumptions C07_automorphism_filter_exact.
+
+(* ---------------------------------------------------------------------------------------------------------------
+   Isomorphism._get_mapping: target components, searching_scope, several pattern components, the operators.
+   Vocabulary (definitions in Proofs.IsoProofs, unfolded here in comments):
+     tcomps_ok o_atoms o_bonds tcomps   other.connected_components is a partition of the target atoms into lists that
+                                        no bond leaves (every atom in one, no bond leaves one, no list twice, disjoint)
+     scope_list o_atoms scope           the atoms a search may use: all target atoms (scope = None) or those in the scope
+     single_stream / multi_stream       what the generator yields before the automorphism filter, in order
+     multi_embedding comps scope f      f = concat fs, fs.(i) an induced embedding of the i-th pattern component inside the
+                                        scope whose image lies in a target component cands.(i), the cands pairwise different
+   --------------------------------------------------------------------------------------------------------------- *)
+
+(* one pattern component, ANY scope (None, empty, partial, numbers that are not atoms): exactly the embeddings inside it, each once *)
+Theorem C07_scope_exact : forall (QA A QB B : Type) (amatch : QA -> A -> bool) (bmatch : QB -> B -> bool)
+    (q_atoms : list (Z * QA)) (q_bonds : list (Z * list (Z * QB))) (o_atoms : list (Z * A)) (o_bonds : list (Z * list (Z * B)))
+    (tcomps : list (list Z)),
+  wf_adj q_atoms q_bonds -> wf_adj o_atoms o_bonds -> tcomps_ok A B o_atoms o_bonds tcomps ->
+  forall c clo scope, c <> [] -> lin_ok q_atoms q_bonds clo [] c ->
+    NoDup (single_stream QA A QB B amatch bmatch o_atoms o_bonds tcomps c clo scope) /\
+    forall f, In f (single_stream QA A QB B amatch bmatch o_atoms o_bonds tcomps c clo scope) <->
+              induced_embedding amatch bmatch q_atoms q_bonds o_atoms o_bonds (map fst4 c) (scope_list A o_atoms scope) f.
+Proof. exact scope_exact. Qed.
+Print Assumptions C07_scope_exact.
+
+(* several (or zero) pattern components: different pattern components in different target components *)
+Theorem C07_multi_component_exact : forall (QA A QB B : Type) (amatch : QA -> A -> bool) (bmatch : QB -> B -> bool)
+    (q_atoms : list (Z * QA)) (q_bonds : list (Z * list (Z * QB))) (o_atoms : list (Z * A)) (o_bonds : list (Z * list (Z * B)))
+    (tcomps : list (list Z)) (comps : list (list (lentry QA QB))) (clo : closures_t QB),
+  wf_adj q_atoms q_bonds -> wf_adj o_atoms o_bonds -> tcomps_ok A B o_atoms o_bonds tcomps ->
+  compiled_ok q_atoms q_bonds comps clo ->
+  forall scope f, In f (multi_stream QA A QB B amatch bmatch o_atoms o_bonds tcomps comps clo scope) <->
+                  multi_embedding QA A QB B amatch bmatch q_atoms q_bonds o_atoms o_bonds tcomps comps scope f.
+Proof. exact multi_component_exact. Qed.
+Print Assumptions C07_multi_component_exact.
+
+(* the whole call pattern.get_mapping(target, automorphism_filter=flt, searching_scope=scope), any pattern, any scope *)
+Theorem C07_get_mapping_exact : forall (QA A QB B : Type) (amatch : QA -> A -> bool) (bmatch : QB -> B -> bool)
+    (q_atoms : list (Z * QA)) (q_bonds : list (Z * list (Z * QB))) (o_atoms : list (Z * A)) (o_bonds : list (Z * list (Z * B)))
+    (tcomps : list (list Z)),
+  wf_adj q_atoms q_bonds -> wf_adj o_atoms o_bonds -> tcomps_ok A B o_atoms o_bonds tcomps ->
+  forall comps clo flt scope, compile_query q_atoms q_bonds = Ok (comps, clo) ->
+  exists stream,
+    mol_get_mapping amatch bmatch q_atoms q_bonds o_atoms o_bonds tcomps flt scope = Ok (auto_filter flt [] stream) /\
+    forall f, In f stream <-> multi_embedding QA A QB B amatch bmatch q_atoms q_bonds o_atoms o_bonds tcomps comps scope f.
+Proof. exact get_mapping_exact. Qed.
+Print Assumptions C07_get_mapping_exact.
+
+Theorem C07_is_substructure_iff : forall (QA A QB B : Type) (amatch : QA -> A -> bool) (bmatch : QB -> B -> bool)
+    (q_atoms : list (Z * QA)) (q_bonds : list (Z * list (Z * QB))) (o_atoms : list (Z * A)) (o_bonds : list (Z * list (Z * B)))
+    (tcomps : list (list Z)),
+  wf_adj q_atoms q_bonds -> wf_adj o_atoms o_bonds -> tcomps_ok A B o_atoms o_bonds tcomps ->
+  forall comps clo, compile_query q_atoms q_bonds = Ok (comps, clo) ->
+  exists b, is_substructure amatch bmatch q_atoms q_bonds o_atoms o_bonds tcomps = Ok b /\
+            (b = true <-> exists f, multi_embedding QA A QB B amatch bmatch q_atoms q_bonds o_atoms o_bonds tcomps comps None f).
+Proof. exact is_substructure_iff. Qed.
+Print Assumptions C07_is_substructure_iff.
+
+Theorem C07_is_equal_iff : forall (QA A QB B : Type) (amatch : QA -> A -> bool) (bmatch : QB -> B -> bool)
+    (q_atoms : list (Z * QA)) (q_bonds : list (Z * list (Z * QB))) (o_atoms : list (Z * A)) (o_bonds : list (Z * list (Z * B)))
+    (tcomps : list (list Z)),
+  wf_adj q_atoms q_bonds -> wf_adj o_atoms o_bonds -> tcomps_ok A B o_atoms o_bonds tcomps ->
+  forall comps clo, compile_query q_atoms q_bonds = Ok (comps, clo) ->
+  exists b, is_equal amatch bmatch q_atoms q_bonds o_atoms o_bonds tcomps = Ok b /\
+            (b = true <-> length q_atoms = length o_atoms /\
+                          exists f, multi_embedding QA A QB B amatch bmatch q_atoms q_bonds o_atoms o_bonds tcomps comps None f).
+Proof. exact is_equal_iff. Qed.
+Print Assumptions C07_is_equal_iff.
+
+(* self < other; self <= other is is_substructure; self > other and self >= other are other < self and other <= self *)
+Theorem C07_lt_iff : forall (QA A QB B : Type) (amatch : QA -> A -> bool) (bmatch : QB -> B -> bool)
+    (q_atoms : list (Z * QA)) (q_bonds : list (Z * list (Z * QB))) (o_atoms : list (Z * A)) (o_bonds : list (Z * list (Z * B)))
+    (tcomps : list (list Z)),
+  wf_adj q_atoms q_bonds -> wf_adj o_atoms o_bonds -> tcomps_ok A B o_atoms o_bonds tcomps ->
+  forall comps clo, compile_query q_atoms q_bonds = Ok (comps, clo) ->
+  exists b, iso_lt amatch bmatch q_atoms q_bonds o_atoms o_bonds tcomps = Ok b /\
+            (b = true <-> (length q_atoms < length o_atoms)%nat /\
+                          exists f, multi_embedding QA A QB B amatch bmatch q_atoms q_bonds o_atoms o_bonds tcomps comps None f).
+Proof. exact lt_iff. Qed.
+Print Assumptions C07_lt_iff.
+
+(* the two boundary inputs that the code got wrong before a6a7a4a / 3d5c51c *)
+Theorem C07_empty_scope_no_mapping : forall (QA A QB B : Type) (amatch : QA -> A -> bool) (bmatch : QB -> B -> bool)
+    (comps : list (list (lentry QA QB))) clo (o_atoms : list (Z * A)) o_bonds tcomps flt,
+  comps <> [] -> iso_get_mapping amatch bmatch comps clo o_atoms o_bonds tcomps flt (Some []) = Ok [].
+Proof. exact empty_scope_no_mapping. Qed.
+Print Assumptions C07_empty_scope_no_mapping.
+
+Theorem C07_empty_pattern_one_embedding : forall (QA A QB B : Type) (amatch : QA -> A -> bool) (bmatch : QB -> B -> bool)
+    (o_atoms : list (Z * A)) (o_bonds : list (Z * list (Z * B))) tcomps flt scope,
+  mol_get_mapping amatch bmatch (@nil (Z * QA)) (@nil (Z * list (Z * QB))) o_atoms o_bonds tcomps flt scope = Ok [[]].
+Proof. exact empty_pattern_one_embedding. Qed.
+Print Assumptions C07_empty_pattern_one_embedding.
+
+(* non-vacuity: pattern C.O on target CCO.O satisfies every hypothesis above; the search yields the two mappings that
+   put C and O into different target components (never C1/C2 with O3), one of them under the scope {2,3,4,99} *)
+Theorem C07_example_instance :
+  wf_adj ex_q_atoms ex_q_bonds /\ wf_adj ex_o_atoms ex_o_bonds /\ tcomps_ok Z Z ex_o_atoms ex_o_bonds ex_tcomps /\
+  compile_query ex_q_atoms ex_q_bonds = Ok ([[(1, None, 6, None)]; [(2, None, 8, None)]], []) /\
+  mol_get_mapping Z.eqb Z.eqb ex_q_atoms ex_q_bonds ex_o_atoms ex_o_bonds ex_tcomps false None
+    = Ok [[(1, 2); (2, 4)]; [(1, 1); (2, 4)]] /\
+  mol_get_mapping Z.eqb Z.eqb ex_q_atoms ex_q_bonds ex_o_atoms ex_o_bonds ex_tcomps true (Some [2; 3; 4; 99])
+    = Ok [[(1, 2); (2, 4)]] /\
+  multi_embedding Z Z Z Z Z.eqb Z.eqb ex_q_atoms ex_q_bonds ex_o_atoms ex_o_bonds ex_tcomps
+    [[(1, None, 6, None)]; [(2, None, 8, None)]] None [(1, 2); (2, 4)].
+Proof. exact example_instance. Qed.
+Print Assumptions C07_example_instance.
+
+(* _compile_query records every pattern bond exactly once: as the tree edge of one of its ends (tree_edge x y: the entry of
+   x names y as `back`) or in the closure list of one of its ends (closure_edge x y: y is listed in closures[x]) ... *)
+Theorem C07_bond_recorded_once : forall (QA QB : Type) (atoms : list (Z * QA)) (bonds : list (Z * list (Z * QB)))
+    (comps : list (list (lentry QA QB))) (clo : closures_t QB),
+  wf_adj atoms bonds -> compiled_ok atoms bonds comps clo ->
+  forall x y, In y (keys (adj_get bonds x)) ->
+    let A := tree_edge QA QB comps x y in let B := tree_edge QA QB comps y x in
+    let C := closure_edge QB clo x y in let D := closure_edge QB clo y x in
+    (A \/ B \/ C \/ D) /\ ~ (A /\ B) /\ ~ (A /\ C) /\ ~ (A /\ D) /\ ~ (B /\ C) /\ ~ (B /\ D) /\ ~ (C /\ D).
+Proof. exact bond_recorded_once. Qed.
+Print Assumptions C07_bond_recorded_once.
+
+(* ... and records nothing that is not a bond; closures[x] lists no atom twice *)
+Theorem C07_recorded_is_bond : forall (QA QB : Type) (atoms : list (Z * QA)) (bonds : list (Z * list (Z * QB)))
+    (comps : list (list (lentry QA QB))) (clo : closures_t QB),
+  wf_adj atoms bonds -> compiled_ok atoms bonds comps clo ->
+  forall x y,
+    (tree_edge QA QB comps x y -> In y (keys (adj_get bonds x))) /\
+    (In x (keys atoms) -> closure_edge QB clo x y -> In y (keys (adj_get bonds x))) /\
+    (In x (keys atoms) -> NoDup (keys (clo_get clo x))).
+Proof. exact recorded_is_bond. Qed.
+Print Assumptions C07_recorded_is_bond.
